@@ -91,6 +91,7 @@ let do_jpg line =
       let hdw = words hd in
       let geti i = int_of_string (List.nth hdw i) in
       let p = geti 1 and nc = geti 2 and w = geti 3 and h = geti 4 and prog = geti 5 = 1 in
+      let arith = List.length hdw > 6 && geti 6 = 1 in
       let sv = Array.of_list (ints samp) in
       let hs = Array.init nc (fun c -> sv.(2 * c)) and vs = Array.init nc (fun c -> sv.(2 * c + 1)) in
       let hmax = Array.fold_left max 1 hs and vmax = Array.fold_left max 1 vs in
@@ -107,8 +108,12 @@ let do_jpg line =
         let (ri, ss, se, ah, al, ncs) = match List.map int_of_string hd6 with [ a; b; c; d; e; f ] -> (a, b, c, d, e, f) | _ -> failwith "scan" in
         let rec comps n toks acc = if n = 0 then (List.rev acc, toks) else
           match toks with
-          | c :: r0 -> let (dt, r1) = parse_tbl r0 in let (at, r2) = parse_tbl r1 in comps (n - 1) r2 ((int_of_string c, dt, at) :: acc)
+          | c :: r0 -> let (dt, r1) = parse_tbl r0 in let (at, r2) = parse_tbl r1 in
+              let ci = int_of_string (List.hd (String.split_on_char ':' c)) in comps (n - 1) r2 ((ci, dt, at) :: acc)
           | [] -> failwith "comps" in
+        (* arithmetic scans carry "comp:Td:Ta" (conditioning table numbers) instead of Huffman tables *)
+        let tdta = List.filter_map (fun t -> match String.split_on_char ':' t with
+                                             | [ _; td; ta ] -> Some (int_of_string td, int_of_string ta) | _ -> None) rest in
         let (cl, rest2) = comps ncs rest [] in
         let hex = match rest2 with [ x ] -> x | [] -> "" | _ -> failwith "hex" in
         let real = zl (bytes_of_hex hex) in
@@ -125,7 +130,21 @@ let do_jpg line =
         let unflat l = List.map (fun b -> [ b ]) l in
         let nssn = nat_of_int ss and nsen = nat_of_int se and zal = z_of_int al in
         let cur () = cur_mcus fr dst lay in
+        let acs_ = List.map (fun (td, ta) -> { a_dct = z_of_int td; a_act = z_of_int ta; a_L = z_of_int 0; a_U = z_of_int 1; a_K = z_of_int 5 }) tdta in
         let (e, d) =
+          if arith then begin
+            if not prog then
+              (aseq_enc_scan acs_ mem ncomp rin em, aseq_dec_scan acs_ mem ncomp rin (nat_of_int (List.length lay)) real)
+            else if ss = 0 then
+              if ah = 0 then (adcf_enc_scan acs_ mem zal ncomp rin em, adcf_dec_scan acs_ mem zal ncomp rin (cur ()) real)
+              else (adcr_enc_scan zal rin em, adcr_dec_scan zal rin (cur ()) real)
+            else if ah = 0 then
+              (aacf_enc_scan acs_ zal nssn nsen rin (flat em),
+               (match aacf_dec_scan acs_ zal nssn nsen rin (flat (cur ())) real with Some l -> Some (unflat l) | None -> None))
+            else
+              (aacr_enc_scan acs_ zal nssn nsen (z_of_int ah) rin (flat em),
+               (match aacr_dec_scan acs_ zal nssn nsen rin (flat (cur ())) real with Some l -> Some (unflat l) | None -> None))
+          end else
           if not prog then
             (seq_enc_scan dct act mcb mem ncomp rin em,
              seq_dec_scan dct act mem ncomp rin (nat_of_int (List.length lay)) real)
